@@ -45,6 +45,19 @@ def error_exit(message):
     sys.exit(f"{sys.argv[0]}: {message}")
 
 
+def str_to_bool(value):
+    """
+    Convert a command line string such as "True", "false", "1" or "0" to a boolean
+    (``type=bool`` would treat any non-empty string, including "False", as True).
+    """
+    lowered = value.strip().lower()
+    if lowered in ("true", "t", "yes", "y", "1"):
+        return True
+    if lowered in ("false", "f", "no", "n", "0"):
+        return False
+    raise argparse.ArgumentTypeError(f"expected True or False, got '{value}'")
+
+
 def setup_logging(args):
     log_level = "WARN"
     if args.verbosity > 0:
@@ -236,7 +249,7 @@ def tsdate_cli_parser():
     parser.add_argument(
         "--erase-flanks",
         "--trim_telomeres",
-        type=bool,
+        type=str_to_bool,
         help=(
             "Should all material before the first site and after the "
             "last site be trimmed, regardless of the length of these "
@@ -246,7 +259,7 @@ def tsdate_cli_parser():
     )
     parser.add_argument(
         "--split-disjoint",
-        type=bool,
+        type=str_to_bool,
         help=(
             "Should disjoint nodes, that disappear from the trees then "
             "reappear further along the genome, be split into separate nodes. "
@@ -324,7 +337,10 @@ def run_preprocess(args):
     except tskit.FileFormatError as ffe:
         error_exit(f"FileFormatError loading '{args.tree_sequence}: {ffe}")
     snipped_ts = tsdate.preprocess_ts(
-        ts, minimum_gap=args.minimum_gap, erase_flanks=args.erase_flanks
+        ts,
+        minimum_gap=args.minimum_gap,
+        erase_flanks=args.erase_flanks,
+        split_disjoint=args.split_disjoint,
     )
     snipped_ts.dump(args.output)
 
